@@ -106,8 +106,12 @@ def run(tier, seed):
     for i in range(nf):
         # every third grid grammar has a binary nonterminal whose base rule is a diagonal PatternedTensor: the
         # fixed-point iterates then change their sparsity pattern while newton / linear do not care
-        a = AG.gen_fx_recursive(rng, linear=(i % 2 == 0), max_q=0.85, patterned=('tri' if i % 3 == 1 else False))
-        jobs.append({'ag': a, 'idx': nn + i, 'tier': tier, 'mode': 'fx'})
+        # ... and every fifth has an unproductive nonterminal in the recursive component (a rule that never gets a value,
+        # listed before the productive ones) and a scalar start symbol: its gradients are taken per interpreter level too
+        dead = i % 5 == 2
+        a = AG.gen_fx_recursive(rng, linear=(i % 2 == 0 and not dead), max_q=0.85, patterned=('tri' if i % 3 == 1 and not dead else False),
+                                dead=dead, scalar_start=dead)
+        jobs.append({'ag': a, 'idx': nn + i, 'tier': tier, 'mode': 'fx', 'lg': dead})
     with Scratch() as work:
         res = run_workers(work, jobs, o)
         for i in range(min(ncli, nn)):
@@ -126,6 +130,13 @@ def run(tier, seed):
         o.states += st
         o.transitions += tr
         o.absorb_verdicts(lg_cases, v3, load_findings(), part='log_gradients')
+        lgf_cases = [{'ag': {k: j['ag'][k] for k in ('nls', 'els', 'start', 'rules', 'wfx', 'cert')}, 'mode': 'fx', 'cot': [1], 'cotlog': [1], 'pad': 8,
+                      'runs': loggrads[j['idx']]['runs']} for j in jobs if j['mode'] == 'fx' and j['idx'] in loggrads]
+        v4, st, tr, _ = judge_batch(work / 'j4', 'Trace_Grad', lgf_cases, per_shard_min=2, heap='3g')
+        o.states += st
+        o.transitions += tr
+        o.absorb_verdicts(lgf_cases, v4, load_findings(), part='gradients_recursive')
+        o.extra['recursive_gradient_grammars'] = len(lgf_cases)
         v2, st, tr, _ = judge_batch(work / 'j2', 'Trace_Recursive', fx_cases, per_shard_min=2, heap='3g')
         o.states += st
         o.transitions += tr
